@@ -202,7 +202,7 @@ func genC19(g *Gen, tier string, w *bufio.Writer) {
 		w.WriteByte('\n')
 	}
 
-	// (b1) timed, one key: records at event times 5 and 20, watermarks 4, 10, 30, a retraction at 20
+	// (b1) timed, one key: records at event times 5 and 20, watermarks 4, 5, 10, 30, a retraction at 20
 	timed := func(row rowFn, syms string) []Msg {
 		var a []Msg
 		for _, c := range syms {
@@ -215,6 +215,8 @@ func genC19(g *Gen, tier string, w *bufio.Writer) {
 				a = append(a, recMsg(row(iv(1)), true, 20))
 			case '4':
 				a = append(a, wmMsg(4))
+			case '5': // a watermark equal to an event time (the boundary of Emit's `!After`)
+				a = append(a, wmMsg(5))
 			case '1':
 				a = append(a, wmMsg(10))
 			case '3':
@@ -247,17 +249,21 @@ func genC19(g *Gen, tier string, w *bufio.Writer) {
 	}
 	inner, left, right, full := joinKinds[0:1], joinKinds[1:2], joinKinds[2:3], joinKinds[3:4]
 	if thorough {
-		fam(inner, timed, "abr413", 3)
-		fam(full, timed, "abr413", 3)
-		fam(inner, timed, "a41", 4)
-		fam(left, timed, "abr413", 2)
-		fam(right, timed, "abr413", 2)
-		fam(joinKinds, untimed, "aAnNb", 3)
-		fam(inner, untimed, "aAn", 4)
-		fam(full, untimed, "aAn", 4)
+		fam(inner, timed, "abr513", 3)
+		fam(full, timed, "abr513", 3)
+		fam(inner, timed, "a51", 4)
+		fam(left, timed, "abr4513", 2)
+		fam(right, timed, "abr4513", 2)
+		fam(inner, untimed, "aAnNb", 3)
+		fam(full, untimed, "aAnNb", 3)
+		fam(left, untimed, "aAn", 3)
+		fam(right, untimed, "aAn", 3)
+		fam(inner, untimed, "aA", 4)
+		fam(full, untimed, "aA", 4)
 	} else {
-		fam(inner, timed, "a41", 3)
-		fam(full, timed, "abr413", 2)
+		fam(inner, timed, "a51", 3)
+		fam(full, timed, "abr513", 2)
+		fam(inner, timed, "ab4", 2)
 		fam(inner, untimed, "aA", 3)
 		fam(inner, untimed, "aAnNb", 2)
 		fam(full, untimed, "aA", 3)
@@ -269,7 +275,7 @@ func genC19(g *Gen, tier string, w *bufio.Writer) {
 	// (c) random
 	cnt := 4000
 	if thorough {
-		cnt = 300000
+		cnt = 200000
 	}
 	for i := 0; i < cnt; i++ {
 		w.WriteString(randJoinOp(g).encode())
